@@ -45,6 +45,9 @@ CLAIMS = {
  "C11": dict(design="5/C11", tech=E1,
    text="Every decorator tree up to a node/depth bound over {sink, StreamFailFast, StreamToQueue, TimestampingStreamResult, CopyStreamResult x1..3, StreamTagger (3 variants) x1..3} is fed status events (status x tags container incl. frozenset x timestamp x route code x symbolic chunk) and short event sequences; each leaf's log is compared with the composition of one-line specs along its path; the caller's tag container is snapshotted before/after. Exhaustive within the bound.",
    note="Clock stubbed by replacing testtools.testresult.real.datetime; sinks are the recording doubles."),
+ "C14": dict(design="5/C14", tech=E1 + " over a virtual-time reactor",
+   text="Generated programs under AsynchronousDeferredRunTest (and ForBrokenTwisted) on a virtual-time reactor: each of setUp/body/tearDown/cleanups over 10 behaviours (return, raise, Deferred firing/failing after d, never firing, left-over delayed call, log.err, dropped failed Deferred, skip, fail) with a fault budget, d 0..2, timeouts, stop request instants, logging options. Exactly one outcome between startTest/stopTest; success iff every executed stage was clean and the run completed before timeout/interrupt; timeout/interrupt give an error (interrupt also stops the result); stage log with virtual timestamps equals the reference (each stage starts after the previous Deferred fired, cleanups LIFO); afterwards no pending reactor calls and the Twisted log observers are those installed before. Exhaustive over the selector space.",
+   note="Virtual reactor instead of the real one; CPython refcounting decides when a dropped failed Deferred is seen; ties admit either course."),
  "C15": dict(design="5/C15", tech=E1 + " over a virtual-time reactor",
    text="Spinner.run on a deterministic virtual-time reactor: function behaviour x Deferred delay 0..3 x timeout 1..3 x stop request at 0..3/never (every order and tie of fire, timeout, stop) x left-over delayed calls / selectables x pre-installed signal handlers x second run with/without clear_junk; result compared with a first-event-wins reference, and afterwards reactor not running, no pending calls or selectables, junk reported, reactor.stop and signal handlers restored; re-entry refused. Exhaustive over the selector space.",
    note="VReactor = twisted.internet.task.Clock + run/crash/stop/callWhenRunning/removeAll/iterate; the real reactor and wall-clock timing are outside the claim."),
